@@ -18,7 +18,7 @@ ASSUMPTIONS = [
     "deep histories: a fixed family of long (600 / 3000 step) alphabet cycles with coprime strides on one live object",
 ]
 BUDGET = {"quick": 150, "thorough": 1500}
-EXHAUSTIVE = True
+EXHAUSTIVE = False   # complete up to the stated depth bound per class and pass, but no fixpoint is reached
 PLAN = {
     # kind: (passA depth quick, passA depth thorough, passB depth quick, passB depth thorough)
     RG.MG: (8, 14, 4, 5),
@@ -39,6 +39,7 @@ def drive(ctx):
     ctx.pmap(bfs.deep_walk, deep)
     allstats.append({"deep_histories": len(deep), "length_bound": deep[0]["len"]})
     ctx.extra["exploration"] = allstats
+    ctx.extra["exhaustive_within_depth_bound"] = not ctx.capped
     ctx.distinct = ctx.states
 
 
